@@ -38,7 +38,7 @@ Proof.
 Qed.
 
 Theorem scan_all_spec src ds :
-  okr (fun os => all_ok src os /\ ends_final os /\ first_bad os false) (scan_all src ds).
+  okr (fun os => all_ok src os /\ ends_final os /\ first_bad os false /\ explained src False os) (scan_all src ds).
 Proof.
   destruct src as [|c s] eqn:Esrc.
   - (* the empty source: one EOF token at 1:1 *)
@@ -51,11 +51,13 @@ Proof.
       * intros H; discriminate H.
     + eexists [], _. splits; [reflexivity|reflexivity|constructor].
     + reflexivity.
+    + cbn. split; [intros H; discriminate H|exact I].
   - rewrite <- Esrc. unfold scan_all.
     eapply okr_bind; [apply (new_lexer_norm src c s Esrc)|].
     intros l (Hn & Hx).
     eapply okr_weaken; [apply (scan_loop_spec src _ ds l Hn (lex_fuel_enough src l Hn))|].
-    intros os (H1 & H2 & H3). rewrite Hx in H3. splits; assumption.
+    intros os (H1 & H2 & H3 & H4). rewrite Hx in H3. splits; try assumption.
+    apply (explained_weaken src os (xl l = true)); [rewrite Hx; intros K; discriminate K|exact H4].
 Qed.
 
 (* totality: the model lexer never panics, never runs out of fuel, and stops at EOF or ILLEGAL *)
@@ -78,8 +80,56 @@ Qed.
 Theorem first_token_unaffected src ds os :
   scan_all src ds = LOk os -> exists o rest, os = o :: rest /\ tbad (otok o) = false.
 Proof.
-  intros E. destruct (scan_all_spec src ds) as (os' & E' & _ & _ & Hf).
+  intros E. destruct (scan_all_spec src ds) as (os' & E' & _ & _ & Hf & _).
   rewrite E in E'. injection E' as <-. destruct os as [|o rest]; [contradiction|]. eauto.
+Qed.
+
+(* ---- what the flag tbad means in terms of the source -------------------------------------- *)
+Lemma explained_split src pre : forall (S : Prop) o post,
+  explained src S (pre ++ o :: post) -> tbad (otok o) = true ->
+  S \/ exists n, In n pre /\ cause src (otok n).
+Proof.
+  induction pre as [|p pre IH]; intros S o post; cbn [app explained].
+  - intros (H & _) Hb. left; auto.
+  - intros (_ & H) Hb. destruct (IH _ o post H Hb) as [[HS|Hc]|(n & Hin & Hc)].
+    + left; exact HS.
+    + right. exists p. split; [left; reflexivity|exact Hc].
+    + right. exists n. split; [right; exact Hin|exact Hc].
+Qed.
+
+(* a token is flagged only if an EARLIER token is a NUMBER directly followed, in the source, by
+   e/E, an optional sign, and CR or LF *)
+Theorem bad_has_cause src ds os pre o post :
+  scan_all src ds = LOk os -> os = pre ++ o :: post -> tbad (otok o) = true ->
+  exists n, In n pre /\ cause src (otok n).
+Proof.
+  intros E -> Hb. destruct (scan_all_spec src ds) as (os' & E' & _ & _ & _ & Hex).
+  rewrite E in E'. injection E' as <-.
+  destruct (explained_split src pre False o post Hex Hb) as [[]|H]. exact H.
+Qed.
+
+(* hence a purely textual guard: a source in which no e/E is followed, directly or after one
+   sign, by CR or LF is lexed without any flagged token *)
+Definition no_dangling_eol (src : bytes) : Prop := forall j, ~ dangling_eol src j.
+
+Theorem no_dangling_no_bad src ds os :
+  no_dangling_eol src -> scan_all src ds = LOk os -> forall o, In o os -> tbad (otok o) = false.
+Proof.
+  intros Hnd E o Hin. destruct (tbad (otok o)) eqn:Hb; [exfalso|reflexivity].
+  destruct (in_split _ _ Hin) as (pre & post & Eos).
+  destruct (bad_has_cause src ds os pre o post E Eos Hb) as (n & _ & (_ & Hd)).
+  exact (Hnd _ Hd).
+Qed.
+
+Theorem lexer_positions_textual_guard src ds os :
+  no_dangling_eol src -> scan_all src ds = LOk os ->
+  forall o, In o os -> tkind (otok o) <> T_ILLEGAL ->
+  tpos (otok o) = pos_of_offset src (tstart (otok o)) /\ 0 <= tstart (otok o) <= zlen src.
+Proof.
+  intros Hnd E o Hin Hk.
+  destruct (lexer_positions_guarded src ds os E o Hin) as (H & _).
+  - split; [eapply no_dangling_no_bad; eauto|intros; contradiction].
+  - exact (H Hk).
 Qed.
 
 (* ---- the unguarded statement and its refutation on the pinned tree ---------------------- *)
